@@ -50,7 +50,14 @@ func CombineFromNextProtos(prefix string, chunks []string) (string, error) {
 	for _, chunk := range chunks {
 		// Strip that and the number
 		if strings.HasPrefix(chunk, prefix) {
-			ret += strings.TrimPrefix(chunk, prefix)[3:]
+			// The header is the chunk number, which is at least two digits but
+			// grows beyond that from the 101st chunk on, followed by a hyphen
+			rest := strings.TrimPrefix(chunk, prefix)
+			idx := strings.IndexByte(rest, '-')
+			if idx < 1 || strings.Trim(rest[:idx], "0123456789") != "" {
+				return "", fmt.Errorf("(%s) malformed chunk header", op)
+			}
+			ret += rest[idx+1:]
 		}
 	}
 	return ret, nil
